@@ -239,7 +239,7 @@ int main(int argc, char **argv) {
     if (!viol.empty()) out["violations"] = std::move(viol);
     if (!undec.empty()) out["undecided"] = std::move(undec);
     if (broken) { json::Array u; for (auto &s : setupErrors) u.push_back("setup: " + s); for (auto &kv : I.unsupported) u.push_back(kv.first + " x" + std::to_string(kv.second)); out["unsupported"] = std::move(u); }
-    out["steps"] = (int64_t)I.steps; out["terms"] = (int64_t)TT.t.size(); out["merges"] = (int64_t)I.merges; out["symbolic_branches"] = (int64_t)I.symbolicBranches; out["masked_ops"] = (int64_t)I.masked;
+    out["steps"] = (int64_t)I.steps; out["terms"] = (int64_t)TT.t.size(); out["merges"] = (int64_t)I.merges; out["symbolic_branches"] = (int64_t)I.symbolicBranches; out["masked_ops"] = (int64_t)I.masked; out["ptr_order_by_layout"] = (int64_t)I.layoutAssumed;
     out["how"] = json::Object{{"identical_or_canonical", (int64_t)cmp.nCanon}, {"polynomial", (int64_t)cmp.nPoly}, {"case_split", (int64_t)cmp.nSplit}, {"minmax", (int64_t)cmp.nMinmax}, {"refuted", (int64_t)cmp.nRefuted}, {"undecided", (int64_t)cmp.nUndecided}, {"atoms", (int64_t)cmp.N.atoms}, {"nan_guards_resolved", (int64_t)cmp.N.nanGuards}, {"max_poly", (int64_t)cmp.N.maxsize}};
     { json::Array fa; for (int id : I.fnTouched) fa.push_back(I.fnNames[id]); out["funcs"] = std::move(fa); }
     { json::Array ia; for (auto &s : I.intrinsicsSeen) ia.push_back(s); out["x86"] = std::move(ia); }
